@@ -117,7 +117,7 @@ def run(ctx):
     pg = []
     for kind, detail, bi, t in panics.panic_sites(tt):
         pg += ["%s = %s" % (e, v) for e, v in sym.guards(bi)]
-    ctx.ob("I-INDEX", "test_term_vec_for_image panics exactly when index > len", pg == ["Gt(a1,len(a2)) = true"], "panic condition: %s" % pg)
+    ctx.ob("I-INDEX", "test_term_vec_for_image panics exactly when index > len", pg == ["Lt(len(a2),a1) = true"], "panic condition: %s" % pg)
     # the enum parser's in-place write: covered by the C10 rule instance, re-evaluated here
     pti = maps.enum_parser_fn(ctx, "parse_terms_with_image")
     pos = hir.find_calls(pti["body"], "position")
